@@ -452,6 +452,15 @@ func dpCmd(args []string) {
 			capv := atou(t.next())
 			nthreads, perThread, nkeys, seed := t.int(), t.int(), t.int(), t.int()
 			lruDirect(cid, capv, nthreads, perThread, nkeys, int64(seed))
+		case "LOADINDEX":
+			// an index file produced elsewhere (the updog binary) becomes the built index of a dataset
+			cid, writer, path := t.next(), t.next(), t.next()
+			s.built[cid+"/"+writer] = &builtIndex{file: path, outcome: "OK"}
+			s.datasets[cid] = &dataset{id: cid}
+		case "ADDROW":
+			cid, writer := t.next(), t.next()
+			nthreads, total := t.int(), t.int()
+			s.addRowCase(cid, writer, nthreads, total)
 		case "QVAL":
 			// one *updog.Query value executed on several indexes in sequence (C08)
 			qid := t.next()
